@@ -277,8 +277,20 @@ Proof.
         - specialize (X3 G2). unfold cnt, counters; fold n; cbn [m_end].
           replace (2 * n + 4 <? pc thj) with true by (symmetry; apply Nat.ltb_lt; lia).
           cbn [b2n]. lia. }
+      assert (wb n (pc th) <> 2 -> untimed_ok ms = true) as UNT.
+      { intros W2. apply forallb_forall. intros mj HI. destruct (m_pan mj) eqn:PJ; auto. cbn [orb].
+        destruct (sim_lookup _ _ _ I G SM HI) as (j & thj & Nj & Ij & ->).
+        pose proof (C thj Ij) as OJ. foldn.
+        unfold cnt in PJ. cbn [m_pan counters] in PJ.
+        pose proof (live_not_timed _ _ _ _ OJ PJ) as NT. rewrite GW in NT. specialize (NT W2).
+        unfold cnt, counters; foldn; cbn [m_start m_end]. apply Nat.leb_le.
+        destruct (Nat.ltb_spec (n + 3) (pc thj)), (Nat.ltb_spec (2 * n + 4) (pc thj)); cbn [b2n]; lia. }
       destruct (prog_at _ _ _ _ NA) as [[L ->]|[[L ->]|[[L ->]|[[L ->]|[[L ->]|[[L ->]|[[L ->]|[[L ->]|[[L ->]|[L (k & o & ->)]]]]]]]]]];
         cbn [ev_of_act mon_ok]; auto.
+      * (* generator call *)
+        apply UNT. assert (~ 2 <= wb n (pc th)) by (rewrite wb_ge2; lia). lia.
+      * (* clear *)
+        apply UNT. assert (~ 2 <= wb n (pc th)) by (rewrite wb_ge2; lia). lia.
       * (* start timestamp *)
         apply forallb_forall. intros mj HI. destruct (m_pan mj) eqn:PJ; auto. cbn [orb].
         destruct (LIVE mj HI PJ) as [L2 _].
@@ -289,6 +301,8 @@ Proof.
           replace (n + 3 <? pc th) with false by (symmetry; apply Nat.ltb_ge; lia). cbn [b2n]. lia. }
         rewrite MS. apply andb_true_iff. split; apply Nat.leb_le; lia.
       * (* snapshot *)
+        assert (3 <= wb n (pc th)) as G3' by (apply wb_ge3; lia).
+        rewrite (UNT ltac:(lia)), andb_true_r.
         apply forallb_forall. intros mj HI. destruct (m_pan mj) eqn:PJ; auto. cbn [orb].
         destruct (LIVE mj HI PJ) as [_ L3].
         assert (3 <= wb n (pc th)) as G3 by (apply wb_ge3; lia).
@@ -297,6 +311,8 @@ Proof.
           replace (2 * n + 4 <? pc th) with true by (symmetry; apply Nat.ltb_lt; lia). cbn [b2n]. lia. }
         rewrite ME, (L3 G3). apply Nat.leb_le. lia.
       * (* drop *)
+        assert (3 <= wb n (pc th)) as G3' by (apply wb_ge3; lia).
+        pose proof (UNT ltac:(lia)) as UN.
         assert (forallb (fun mj => m_pan mj || (m_end m <=? m_end mj)) ms = true) as D.
         { apply forallb_forall. intros mj HI. destruct (m_pan mj) eqn:PJ; auto. cbn [orb].
           destruct (LIVE mj HI PJ) as [_ L3].
@@ -305,7 +321,7 @@ Proof.
           { unfold cnt; try foldn; rewrite EM. unfold counters; cbn [m_end].
             replace (2 * n + 4 <? pc th) with true by (symmetry; apply Nat.ltb_lt; lia). cbn [b2n]. lia. }
           rewrite ME, (L3 G3). apply Nat.leb_le. lia. }
-        destruct o; exact D.
+        destruct o; cbn [mon_ok]; rewrite D, UN; reflexivity.
     + (* guard: done, no event *)
       rewrite R0. cbn [Nat.eqb negb]. rewrite andb_false_r.
       simt (@None evk). unfold cnt; try foldn; rewrite EM.
